@@ -7,9 +7,11 @@ def sh(cmd, cwd=WT, timeout=3000):
     return p.returncode, p.stdout
 res={}
 subprocess.run("git -C /repo worktree remove --force %s 2>/dev/null; git -C /repo worktree add --detach %s HEAD -q" % (WT,WT), shell=True)
-for prop in sorted(os.listdir("/tmp/seed/out")):
-    out="/tmp/seed/out/"+prop
-    for k in (1,2):
+OUTROOT=os.environ.get("SEED_OUT","/tmp/seed/out")
+for prop in sorted(os.listdir(OUTROOT)):
+    out=OUTROOT+"/"+prop
+    for k in (1,2,3):
+        if not os.path.exists("%s/patch%d.diff"%(out,k)): continue
         key="%s_%d"%(prop,k)
         if len(sys.argv)>1 and key not in sys.argv[1:]: continue
         run=open("%s/demo%d/RUN.txt"%(out,k)).read()
